@@ -159,7 +159,7 @@ func c09Explore(c *Ctx, stream string) {
 	genQuery := c09QueryGen(r)
 	switch stream {
 	case "session-real":
-		for k := 0; k < c.Budget(400, 40000); k++ {
+		for k := 0; k < c.Budget(400, 20000); k++ {
 			p := c09Profile(r, false)
 			var lines []string
 			for j := 1 + r.Intn(4); j > 0; j-- {
@@ -173,7 +173,7 @@ func c09Explore(c *Ctx, stream string) {
 		p0 := &profile.Profile{Comments: []string{"no sample types"}}
 		c09Web(c, "no-sample-types", p0, nil, []c09Req{{"/top", ""}})
 		paths := []string{"/", "/top", "/disasm", "/source", "/peek", "/flamegraph", "/flamegraph2", "/flamegraphold", "/saveconfig", "/deleteconfig", "/download"}
-		for k := 0; k < c.Budget(150, 10000); k++ {
+		for k := 0; k < c.Budget(150, 5000); k++ {
 			p := c09Profile(r, true)
 			var reqs []c09Req
 			for j := 1 + r.Intn(5); j > 0; j-- {
@@ -202,7 +202,7 @@ func c09Explore(c *Ctx, stream string) {
 		p0 := &profile.Profile{Comments: []string{"no sample types"}}
 		c09CLI(c, "no-sample-types", p0, []string{"p"}, []string{"o"})
 		c09CLI(c, "no-sample-types", p0, []string{"-top", "p"}, nil)
-		for k := 0; k < c.Budget(400, 30000); k++ {
+		for k := 0; k < c.Budget(400, 15000); k++ {
 			p := c09Profile(r, true)
 			var args []string
 			if !r.P(1, 8) {
